@@ -46,6 +46,9 @@ REQUIRED_THEOREMS = [
     "prepare_vertices_coordinates", "vertices_are_float_source", "vertices_3d_source", "gen_face_corners_bridge",
     "gen_cell_corners_bridge", "gen_cell_faces_refines", "step_runs_translated_body", "prepare_runs_translated_bodies",
     "edges_normalised_source",
+    # round 5: DataContainer.append, _prepare_faces/_prepare_cells, RawMeshData.__init__, _prepare_edges translated and bridged
+    "data_append_source", "prepare_faces_bridge", "prepare_cells_bridge", "prepare_faces_source_no_numpy", "init_rewrap_bridge",
+    "prepare_edges_refines", "file_route_source", "file_route_never_fails",
 ]
 TRUSTED = [
     "Lean 4.33.0 kernel; axioms ⊆ {propext, Classical.choice, Quot.sound}",
@@ -58,11 +61,14 @@ TRUSTED = [
     "vocabulary of Lemmas/C02Steps.lean, whose interpreters (runProgram, completeEdgesWith, cornerLists, dimBy, runInst, visible) "
     "are hand-written",
     "translator (vlib/gen/c02_translate.py): the BODIES of _complete_faces_from_cells, _complete_edges_from_faces, _prepare_vertices, "
-    "_generate_face_corners, _generate_cell_corners, _generate_cell_faces (mesh_data.py) and CornerDataContainer.append "
+    "_generate_face_corners, _generate_cell_corners, _generate_cell_faces, _prepare_edges, _prepare_faces, _prepare_cells, __init__ "
+    "(mesh_data.py) and CornerDataContainer.append, DataContainer.append "
     "(data_container.py) are compiled statement by statement into state-passing Lean definitions (Generated/C02Bodies.lean); trusted: "
     "that the Lean text denotes the Python statements, with the primitives of Model/PrepareSource.lean as the meaning of "
     "DataContainer.append, set/dict operations, keyify, numpy dtype kinds; reading a local that is only bound under `if/elif` "
-    "(faces_C of _generate_cell_faces) is totalised, the bridge carries the tetrahedron/hexahedron hypothesis",
+    "(faces_C of _generate_cell_faces) is totalised, the bridge carries the tetrahedron/hexahedron hypothesis; attribute handles "
+    "(get_attribute / create_attribute results kept in dicts) are read as (container, name), the _prepare_edges bridge carries the "
+    "hypothesis that attribute names are unique (they are dict keys)",
     "row-typed model prepareR (Lemmas/C02Rows.lean) tied to the code by the K section of the correspondence: type(row) of every "
     "stored edge/face/cell row for list, tuple and numpy input rows",
     "Python set/dict of key tuples abstracted to lists with membership; numpy int rows abstracted to integer lists "
@@ -1165,7 +1171,7 @@ def translate():
 _MD, _MM, _BS, _DC = "mouette/mesh/mesh_data.py", "mouette/mesh/mesh.py", "mouette/mesh/datatypes/base.py", "mouette/mesh/data_container.py"
 SOURCE_MAP = {
     # ---- mesh_data.py
-    f"{_MD}::RawMeshData.__init__": "modelled",                      # fresh containers / `rewrap` (RawMeshData(mesh))
+    f"{_MD}::RawMeshData.__init__": "translated",                    # C02B.initFromMesh, initFresh / init_rewrap_bridge
     f"{_MD}::RawMeshData.id_vertices": "modelled",                   # shape-checked by the translator: `return range(len(self.x))`
     f"{_MD}::RawMeshData.id_edges": "modelled",
     f"{_MD}::RawMeshData.id_faces": "modelled",
@@ -1176,11 +1182,11 @@ SOURCE_MAP = {
     f"{_MD}::RawMeshData._compute_dimensionality": "translated",     # C02S.dimChain / dimensionality_bridge
     f"{_MD}::RawMeshData.prepare": "translated",                     # C02S.prepareProgram / prepare_follows_source_structure
     f"{_MD}::RawMeshData._prepare_vertices": "translated",           # C02B.prepareVertices / prepare_vertices_bridge
-    f"{_MD}::RawMeshData._prepare_edges": "modelled",                # only its nested is_valid is translated
+    f"{_MD}::RawMeshData._prepare_edges": "translated",              # C02B.prepareEdges / prepare_edges_refines
     f"{_MD}::RawMeshData._prepare_edges.is_valid": "translated",     # C02S.isValid / is_valid_bridge
-    f"{_MD}::RawMeshData._prepare_faces": "modelled",                # row-typed model prepareFacesR (Lemmas/C02Rows)
+    f"{_MD}::RawMeshData._prepare_faces": "translated",              # C02B.prepareFaces / prepare_faces_bridge (row-typed model)
     f"{_MD}::RawMeshData._generate_face_corners": "translated",      # C02B.genFaceCorners / gen_face_corners_bridge
-    f"{_MD}::RawMeshData._prepare_cells": "modelled",
+    f"{_MD}::RawMeshData._prepare_cells": "translated",              # C02B.prepareCells / prepare_cells_bridge
     f"{_MD}::RawMeshData._generate_cell_corners": "translated",      # C02B.genCellCorners / gen_cell_corners_bridge
     f"{_MD}::RawMeshData._generate_cell_faces": "translated",        # C02B.genCellFaces / gen_cell_faces_refines
     f"{_MD}::RawMeshData._complete_edges_from_faces": "translated",  # C02B.completeEdges / complete_edges_bridge
@@ -1216,7 +1222,7 @@ SOURCE_MAP = {
     f"{_DC}::DataContainer.size": "out-of-scope: alias of __len__, not used by the construction code",
     f"{_DC}::DataContainer.empty": "modelled",
     f"{_DC}::DataContainer.clear": "out-of-scope: not used by the construction code",
-    f"{_DC}::DataContainer.append": "modelled",                      # PrepSrc.edgesAppend / facesAppend (row appended, attributes expanded by one)
+    f"{_DC}::DataContainer.append": "translated",                    # C02B.dataAppend / data_append_source (used by every X.append(..) of the bodies)
     f"{_DC}::DataContainer.__iadd__": "oracle-only",                 # how the harness fills raw containers
     f"{_DC}::CornerDataContainer.__init__": "modelled",
     f"{_DC}::CornerDataContainer.__getitem__": "oracle-only",        # later-query battery
@@ -1249,7 +1255,9 @@ MANIFEST = {
                    "face completion, edge completion, vertex preparation (padding + int->float), face/cell corner generation, cell-face "
                    "generation and CornerDataContainer.append, compiled statement by statement and bridged to the model by fold "
                    "invariants, so that the model's prepare is proved to be the translated step program run on the translated bodies "
-                   "(prepare_runs_translated_bodies; only _prepare_edges stays hand-modelled inside it). prepare commutes with forgetting "
+                   "(prepare_runs_translated_bodies; round 5: _prepare_edges - validity filter, rebuild with attribute re-indexing - "
+                   "DataContainer.append, the numpy-row -> list conversions and RawMeshData.__init__/re-wrap are translated and bridged too; "
+                   "file_route_source composes the construction with whatever record a file reader returns). prepare commutes with forgetting "
                    "the container type (list/tuple/numpy) of index rows and leaves no numpy row. The model is tied to the code by an exact container correspondence per "
                    "container type and a direct oracle including a later-query battery on numpy-built meshes."),
     "level_note": ("Trusted: Lean kernel + propext/Classical.choice/Quot.sound; the hand-written model (checked against the code on the "
